@@ -6,12 +6,9 @@ cd /verif
 TIER=${1:-quick}
 PROPS=$(python3 -c "import json;print(' '.join(c['property_id'] for c in json.load(open('MANIFEST.json'))['checks']))")
 mkdir -p /tmp/runall; rm -f /tmp/runall/*
-for p in $PROPS; do
-  ( ./run.sh $p $TIER > /tmp/runall/$p.out 2> /tmp/runall/$p.err; echo $? > /tmp/runall/$p.rc ) &
-  # at most 6 at once
-  :
-done
-wait
+# quick: all at once (3 s each); thorough: four at a time (each runs six sub-processes of ~1 GB)
+PAR=20; [ "$TIER" = thorough ] && PAR=4
+echo $PROPS | tr ' ' '\n' | xargs -P $PAR -I{} sh -c "./run.sh {} $TIER > /tmp/runall/{}.out 2> /tmp/runall/{}.err; echo \$? > /tmp/runall/{}.rc"
 for p in $PROPS; do
   rc=$(cat /tmp/runall/$p.rc); k=$(grep -c '^KNOWN-FINDING' /tmp/runall/$p.out); v=$(grep -c '^VIOLATION' /tmp/runall/$p.out)
   echo "$p rc=$rc known=$k violations=$v"
